@@ -51,8 +51,8 @@ struct Trk
 };
 static std::vector<Trk *> &trks()
 {
-  static std::vector<Trk *> v;
-  return v;
+  static std::vector<Trk *> *v = new std::vector<Trk *>;  // never destroyed: LeakSanitizer runs after static destructors
+  return *v;
 }
 static bool g_dirty = false;
 static Trk &trk(const std::string &id, bool asserted = true)
@@ -121,7 +121,7 @@ static inline void chk1(Trk &t, L got, L want, L tol, int line, const char *what
 // tracker looked up by name (for helpers shared between several ids)
 static Trk &DY(const std::string &id)
 {
-  static std::map<std::string, Trk *> m;
+  static std::map<std::string, Trk *> &m = *new std::map<std::string, Trk *>;
   auto it = m.find(id);
   if (it != m.end())
     return *it->second;
@@ -949,6 +949,33 @@ static L epsXfm()
   return epsOf<float>();
 }
 
+template <class AS>
+struct AS_V;
+template <class LSx>
+struct AS_V<AffineSpaceT<LSx>>
+{
+  using type = typename LSx::Vector;
+};
+// unit quaternions: generic, identity/basis, one or two zero components
+static rc::Gen<A4> genQuat4()
+{
+  std::vector<A4> basis = {A4{1, 0, 0, 0}, A4{0, 1, 0, 0}, A4{0, 0, 1, 0}, A4{0, 0, 0, 1}, A4{-1, 0, 0, 0}, A4{1, 1, 0, 0}, A4{1, 0, -1, 0}, A4{0, 1, 1, 0}, A4{1, 1, 1, 1}, A4{1, -1, 1, -1}};
+  return rc::gen::weightedOneOf<A4>({{8, arr<4>(sreal(1))}, {1, rc::gen::elementOf(basis)},
+      {1, rc::gen::map(rc::gen::tuple(arr<4>(sreal(1)), pbt::range<int>(0, 3)), [](const std::tuple<A4, int> &t) {
+         A4 a = std::get<0>(t);
+         a[std::get<1>(t)] = 0;
+         return a;
+       })}});
+}
+static RQ unitQuat(const A4 &a)  // total: degenerate -> 1
+{
+  RQ q{fin(a[0], -4, 4), fin(a[1], -4, 4), fin(a[2], -4, 4), fin(a[3], -4, 4)};
+  L n = sqrtl(qdot(q, q));
+  if (!(n > 1e-6L))
+    return RQ{1, 0, 0, 0};
+  return qscale(q, 1 / n);
+}
+
 #if C06_PART == 0 || C06_PART == 1
 // ============================================================================================
 // PART 1: LinearSpace2 / LinearSpace3
@@ -1238,7 +1265,7 @@ static void lin2_rotate(const Rot2Case &c, pbt::Ctx &ctx)
   const RM<2> want = rot2((L)th);
   const RM<2> got = toRef(LS::rotate(th));
   L two = fmodl(fabsl((L)th), PI_D / 2);
-  bool aligned = two < 1e-9L || two > PI_D / 2 - 1e-9L;
+  bool aligned = two < 1e-6L || two > PI_D / 2 - 1e-6L;
   ctx.nt(!aligned);
   ctx.label(aligned ? "angle: multiple of pi/2" : "angle: generic");
   // entries are +-sin(r), cos(r) evaluated in T: libm is within 1 ulp <= eps*|value| <= eps;  K = 4
@@ -1346,7 +1373,7 @@ static void lin3_rotate(const Rot3Case &c, pbt::Ctx &ctx)
   RV<3> u = toRef(U);
   u = vscale(u, 1 / vlen(u));
   L q = fmodl(fabsl((L)th), PI_D / 2);
-  bool aligned = axisAligned(u) && (q < 1e-9L || q > PI_D / 2 - 1e-9L);
+  bool aligned = axisAligned(u) && (q < 1e-6L || q > PI_D / 2 - 1e-6L);
   ctx.nt(!axisAligned(u) && !(fabsl((L)th) < 1e-9L));
   ctx.label(axisAligned(u) ? "axis: coordinate axis" : "axis: generic");
   ctx.label(k == 0 ? "axis: unit length" : "axis: length 2^k");
@@ -1486,8 +1513,10 @@ static void lin3_frame(const FrameCase &c, pbt::Ctx &ctx)
     ctx.label("frame(N,up): at the 0.99 threshold (either definition accepted)");
     RV<3> dx{{F.m[0][0], F.m[1][0], F.m[2][0]}};
     RV<3> dxw = vscale(cr, 1 / sn);
-    bool isReg = fabsl(vdot(dx, dxw)) > 0.999999L;
     const L tolU = 2 * rsqrtFloor<S>() + 8 * eps / sn;
+    bool isReg = true;
+    for (int i = 0; i < 3; ++i)
+      isReg = isReg && ratio_of(dx[i], dxw[i], tolU) <= 1.0;
     if (isReg) {
       CHKVU(ST(nm + ".frame(N,up):dx=up x N"), dx, dxw, tolU);
     } else
@@ -1521,10 +1550,565 @@ static void register_part1()
 }
 #endif  // PART 1
 
+
+#if C06_PART == 0 || C06_PART == 2
+// ============================================================================================
+// PART 2: AffineSpaceT
+// ============================================================================================
+struct A2f
+{
+  using LS = LinearSpace2f;
+  static constexpr int N = 2;
+  static std::string name()
+  {
+    return "affine2f";
+  }
+};
+struct A3f
+{
+  using LS = LinearSpace3f;
+  static constexpr int N = 3;
+  static std::string name()
+  {
+    return "affine3f";
+  }
+};
+struct A3fa
+{
+  using LS = LinearSpace3fa;
+  static constexpr int N = 3;
+  static std::string name()
+  {
+    return "AffineSpace3fa";
+  }
+};
+struct A3d
+{
+  using LS = LinearSpace3<vec3d>;
+  static constexpr int N = 3;
+  static std::string name()
+  {
+    return "AffineSpaceT<LinearSpace3<vec3d>>";
+  }
+};
+template <int N>
+struct AffCase
+{
+  MatPOf<N> a, b;
+  std::array<double, N> pa, pb, x;
+  double c = 1;
+  int e = 0;
+  auto tie()
+  {
+    return std::tie(a, b, pa, pb, x, c, e);
+  }
+};
+template <int N>
+static rc::Gen<AffCase<N>> genAffCase()
+{
+  typedef std::array<double, N> AN;
+  return rc::gen::map(rc::gen::tuple(genMatP<N>(), genMatP<N>(), genVec<N>(VMAX), genVec<N>(VMAX), genVec<N>(VMAX), genScalar(), pbt::range<int>(0, N * N + N - 1)),
+      [](const std::tuple<MatPOf<N>, MatPOf<N>, AN, AN, AN, double, int> &t) {
+        AffCase<N> c;
+        c.a = std::get<0>(t);
+        c.b = std::get<1>(t);
+        c.pa = std::get<2>(t);
+        c.pb = std::get<3>(t);
+        c.x = std::get<4>(t);
+        c.c = std::get<5>(t);
+        c.e = std::get<6>(t);
+        return c;
+      });
+}
+template <int N>
+static RV<N> vfloor(const RV<N> &v)  // keeps tolerances of all-zero rows positive
+{
+  RV<N> r = v;
+  for (int i = 0; i < N; ++i)
+    r[i] += 1e-300L;
+  return r;
+}
+template <int N>
+static RM<N> mfloor(const RM<N> &v)
+{
+  RM<N> r = v;
+  for (int i = 0; i < N; ++i)
+    for (int j = 0; j < N; ++j)
+      r.m[i][j] += 1e-300L;
+  return r;
+}
+// N = 3 only: the free functions xfmPoint/xfmVector/xfmNormal(AffineSpaceT) read p.z, they do not exist in 2D
+template <class TR, class AS>
+static void aff_xfm(const AS &, const AS &, const RM<2> &, const RM<2> &, const RV<2> &, const RV<2> &, const InvRef<2> &,
+    const typename AS_V<AS>::type &, const RV<2> &)
+{
+}
+template <class TR, class AS>
+static void aff_xfm(const AS &A, const AS &B, const RM<3> &a, const RM<3> &b, const RV<3> &pa, const RV<3> &pb, const InvRef<3> &ia,
+    const typename AS_V<AS>::type &X, const RV<3> &x)
+{
+  using S = typename AS_V<AS>::type::scalar_t;
+  const std::string nm = TR::name();
+  const L ex = epsXfm<S>(), eps = epsOf<S>();
+  RM<3> aa = rabs(a), bb = rabs(b);
+  RV<3> ax = rabs(x);
+  // xfmPoint = l x + p: madd chain, 3 products + 3 sums (+ narrowing to float for double): <= 3 eps_f (|l||x| + |p|), K = 16
+  RV<3> sc = vfloor(vadd(rmulv(aa, ax), rabs(pa)));
+  CHKV(ST(nm + ".xfmPoint"), toRef(xfmPoint(A, X)), vadd(rmulv(a, x), pa), sc, 16 * ex);
+  // xfmVector = l x (the translation must NOT enter)
+  CHKV(ST(nm + ".xfmVector"), toRef(xfmVector(A, X)), rmulv(a, x), vfloor(rmulv(aa, ax)), 16 * ex);
+  // xfmNormal = inverse(l)^T n
+  RM<3> it = rtrans(ia.inv);
+  RV<3> t1 = rmulv(rtrans(ia.unit), ax), t2 = rmulv(rabs(it), ax), tolN;
+  for (int i = 0; i < 3; ++i)
+    tolN[i] = 8 * eps * t1[i] + 16 * ex * t2[i] + 1e-300L;
+  CHKV(ST(nm + ".xfmNormal"), toRef(xfmNormal(A, X)), rmulv(it, x), tolN, 1);
+  // (A*B)(x) = A(B(x)), both sides with rkcommon's xfmPoint:  each side <= ~4.5 eps_f scale,
+  //   scale = |a||b||x| + |a||pb| + |pa|;   K = 16
+  RV<3> want = vadd(rmulv(a, vadd(rmulv(b, x), pb)), pa);
+  RV<3> scale = vfloor(vadd(vadd(rmulv(aa, rmulv(bb, ax)), rmulv(aa, rabs(pb))), rabs(pa)));
+  CHKV(ST(nm + ".xfmPoint(A*B,x)"), toRef(xfmPoint(A * B, X)), want, scale, 16 * ex);
+  CHKV(ST(nm + ".xfmPoint(A,xfmPoint(B,x))"), toRef(xfmPoint(A, xfmPoint(B, X))), want, scale, 16 * ex);
+  if (!std::is_same<S, float>::value)
+    CHKV(SO(nm + ".xfmPoint.at_double_tolerance"), toRef(xfmPoint(A, X)), vadd(rmulv(a, x), pa), sc, 16 * eps);
+}
+template <class AS>
+static AS aff_from_columns(const AS &A, const RM<2> &)
+{
+  return A;
+}
+template <class AS>
+static AS aff_from_columns(const AS &A, const RM<3> &)
+{
+  return AS(A.l.vx, A.l.vy, A.l.vz, A.p);
+}
+
+template <class TR>
+static void aff_algebra(const AffCase<TR::N> &c, pbt::Ctx &ctx)
+{
+  constexpr int N = TR::N;
+  using LS = typename TR::LS;
+  using V = typename LS::Vector;
+  using S = typename V::scalar_t;
+  using AS = AffineSpaceT<LS>;
+  const std::string nm = TR::name();
+  const L eps = epsOf<S>();
+
+  Built<N> ba = build(c.a), bb = build(c.b);
+  const AS A(mkLS<LS>(ba.m), mkV<V>(vecOf(c.pa, VMAX))), B(mkLS<LS>(bb.m), mkV<V>(vecOf(c.pb, VMAX)));
+  const RM<N> a = toRef(A.l), b = toRef(B.l);
+  const RV<N> pa = toRef(A.p), pb = toRef(B.p);
+  const V X = mkV<V>(vecOf(c.x, VMAX));
+  const RV<N> x = toRef(X);
+  const S C = (S)scalarOf(c.c);
+  L condA = ba.smax / ba.smin;
+  ctx.nt(!isDiagonal(a));
+  ctx.label(isDiagonal(a) ? "A.l:diagonal" : "A.l:non-diagonal");
+  ctx.label(vlen(pa) == 0 ? "A.p:zero" : "A.p:non-zero");
+  ctx.label(condA < 2 ? "cond<2" : condA < 16 ? "cond 2..16" : condA < 63.9L ? "cond 16..64" : "cond=64");
+  if (c.a.refl)
+    ctx.label("A.l:reflection(det<0)");
+
+  // ---- constructors / constants: exact ---------------------------------------------------------
+  {
+    PBT_ASSERT_MSG(exactEq(toRef(A.l), a) && exactEq(toRef(A.p), pa), nm << " (l,p) constructor");
+    AS cp(A), as;
+    as = B;
+    as = A;
+    PBT_ASSERT_MSG(exactEq(toRef(cp.l), a) && exactEq(toRef(cp.p), pa) && exactEq(toRef(as.l), a) && exactEq(toRef(as.p), pa), nm << " copy/assignment");
+    AS fl(A.l);
+    PBT_ASSERT_MSG(exactEq(toRef(fl.l), a) && vlen(toRef(fl.p)) == 0, nm << " AffineSpaceT(L) must have p = 0");
+    AS z(zero), o(one);
+    PBT_ASSERT_MSG(exactEq(toRef(z.l), rzero<N>()) && vlen(toRef(z.p)) == 0, nm << " AffineSpaceT(zero)");
+    PBT_ASSERT_MSG(exactEq(toRef(o.l), rident<N>()) && vlen(toRef(o.p)) == 0, nm << " AffineSpaceT(one)");
+    AS fc = aff_from_columns(A, a);
+    PBT_ASSERT_MSG(exactEq(toRef(fc.l), a) && exactEq(toRef(fc.p), pa), nm << " (vx,vy,vz,p) constructor");
+    using VD = vec_t<double, N>;
+    AffineSpaceT<std::conditional_t<N == 2, LinearSpace2<VD>, LinearSpace3<VD>>> wide(A);
+    PBT_ASSERT_MSG(exactEq(toRef(wide.l), a) && exactEq(toRef(wide.p), pa), nm << " converting constructor");
+  }
+  InvRef<N> ia = inv_ref(a), ib = inv_ref(b);
+  RM<N> aa = rabs(a), ainv = rabs(ia.inv), binv = rabs(ib.inv);
+  RV<N> apa = rabs(pa), apb = rabs(pb);
+
+  // ---- rcp(A) = (inverse(l), -inverse(l) p) ------------------------------------------------------------
+  //   l: |err| <= eps unit (inv_ref), K = 8;   p: eps sum unit_ik|p_k| [from l] + 1.5 eps sum |inv_ik||p_k| [product], K = 8
+  const AS Ai = rcp(A);
+  RV<N> wA = rmulv(ia.inv, pa);                                       // inverse(l) p
+  RV<N> ewA = vfloor(vadd(rmulv(ia.unit, apa), rmulv(ainv, apa)));   // its error unit (times 1.5 eps at most)
+  CHKM(ST(nm + ".rcp(A).l"), toRef(Ai.l), ia.inv, ia.unit, 8 * eps);
+  CHKV(ST(nm + ".rcp(A).p"), toRef(Ai.p), vscale(wA, -1), ewA, 8 * eps);
+  // ---- rcp(A)*A = I = A*rcp(A)  (rkcommon's own composition) ------------------------------------------------------
+  {
+    AS I1 = Ai * A, I2 = A * Ai;
+    RM<N> t1 = rmul(ia.unit, aa), t2 = rmul(ainv, aa), tol;
+    for (int i = 0; i < N; ++i)
+      for (int j = 0; j < N; ++j)
+        tol.m[i][j] = 8 * eps * (t1.m[i][j] + t2.m[i][j]);
+    CHKM(ST(nm + ".rcp(A)*A=I:l"), toRef(I1.l), rident<N>(), tol, 1);
+    // p = fl(inv) p + (-(fl(inv) p)): the two products are the same expression; bound: 2 * 1.5 eps sum|inv||p|, K = 8
+    RV<N> zero_;
+    for (int i = 0; i < N; ++i)
+      zero_[i] = 0;
+    CHKV(ST(nm + ".rcp(A)*A=I:p"), toRef(I1.p), zero_, vfloor(rmulv(ainv, apa)), 8 * eps);
+    t1 = rmul(aa, ia.unit);
+    t2 = rmul(aa, ainv);
+    for (int i = 0; i < N; ++i)
+      for (int j = 0; j < N; ++j)
+        tol.m[i][j] = 8 * eps * (t1.m[i][j] + t2.m[i][j]);
+    CHKM(ST(nm + ".A*rcp(A)=I:l"), toRef(I2.l), rident<N>(), tol, 1);
+    // p = l (-w) + p,  w = fl(inv p):  |l| err(w) + 1.5 eps (|l||w| + |p|),  K = 8
+    RV<N> tp = vfloor(vadd(vadd(rmulv(aa, ewA), rmulv(aa, rabs(wA))), apa));
+    CHKV(ST(nm + ".A*rcp(A)=I:p"), toRef(I2.p), zero_, tp, 8 * eps);
+  }
+  // ---- composition A*B = (a b, a pb + pa):  1.5 eps sum|a||b|  resp. 2 eps (|a||pb| + |pa|),  K = 8 --------------
+  const AS AB = A * B;
+  {
+    RM<N> tl = mfloor(rmul(aa, rabs(b)));
+    RV<N> tp = vfloor(vadd(rmulv(aa, apb), apa));
+    CHKM(ST(nm + ".(A*B).l"), toRef(AB.l), rmul(a, b), tl, 8 * eps);
+    CHKV(ST(nm + ".(A*B).p"), toRef(AB.p), vadd(rmulv(a, pb), pa), tp, 8 * eps);
+    AS t = A;
+    t *= B;
+    CHKM(ST(nm + ".(A*=B).l"), toRef(t.l), rmul(a, b), tl, 8 * eps);
+    CHKV(ST(nm + ".(A*=B).p"), toRef(t.p), vadd(rmulv(a, pb), pa), tp, 8 * eps);
+    // (A*B)(x) = A(B(x)) with the operators (stays in T for every instantiation, also in 2D)
+    RV<N> want = vadd(rmulv(a, vadd(rmulv(b, x), pb)), pa);
+    RV<N> scale = vfloor(vadd(vadd(rmulv(aa, rmulv(rabs(b), rabs(x))), rmulv(aa, apb)), apa));
+    V lhs = AB.l * X + AB.p, rhs = A.l * (B.l * X + B.p) + A.p;
+    CHKV(ST(nm + ".(A*B)(x) [operators]"), toRef(lhs), want, scale, 16 * eps);
+    CHKV(ST(nm + ".A(B(x)) [operators]"), toRef(rhs), want, scale, 16 * eps);
+  }
+  // ---- A/B = A*rcp(B) --------------------------------------------------------------------------------------------------
+  {
+    RV<N> wB = rmulv(ib.inv, pb);
+    RV<N> ewB = vadd(rmulv(ib.unit, apb), rmulv(binv, apb));
+    RM<N> t1 = rmul(aa, ib.unit), t2 = rmul(aa, binv), tol;
+    for (int i = 0; i < N; ++i)
+      for (int j = 0; j < N; ++j)
+        tol.m[i][j] = 8 * eps * (t1.m[i][j] + t2.m[i][j]);
+    RV<N> tp = vfloor(vadd(vadd(rmulv(aa, ewB), rmulv(aa, rabs(wB))), apa));
+    RM<N> wl = rmul(a, ib.inv);
+    RV<N> wp = vadd(vscale(rmulv(a, wB), -1), pa);
+    AS q = A / B;
+    CHKM(ST(nm + ".(A/B).l"), toRef(q.l), wl, tol, 1);
+    CHKV(ST(nm + ".(A/B).p"), toRef(q.p), wp, tp, 8 * eps);
+    AS t = A;
+    t /= B;
+    CHKM(ST(nm + ".(A/=B).l"), toRef(t.l), wl, tol, 1);
+    CHKV(ST(nm + ".(A/=B).p"), toRef(t.p), wp, tp, 8 * eps);
+  }
+  // ---- one rounding per entry: exact ------------------------------------------------------------------------------------
+  {
+    AS sA = C * A, pl = A + B, mi = A - B, ng = -A, ps = +A;
+    RM<N> sAl = toRef(sA.l), pll = toRef(pl.l), mil = toRef(mi.l), ngl = toRef(ng.l), psl = toRef(ps.l);
+    RV<N> sAp = toRef(sA.p), plp = toRef(pl.p), mip = toRef(mi.p), ngp = toRef(ng.p), psp = toRef(ps.p);
+    for (int i = 0; i < N; ++i) {
+      for (int j = 0; j < N; ++j) {
+        S aij = (S)a.m[i][j], bij = (S)b.m[i][j];
+        PBT_ASSERT_MSG(sAl.m[i][j] == (L)(S)(C * aij) && pll.m[i][j] == (L)(S)(aij + bij) && mil.m[i][j] == (L)(S)(aij - bij) && ngl.m[i][j] == -a.m[i][j] && psl.m[i][j] == a.m[i][j],
+            nm << " scalar*A / A+B / A-B / -A / +A, l[" << i << "][" << j << "]");
+      }
+      S ai = (S)pa[i], bi = (S)pb[i];
+      PBT_ASSERT_MSG(sAp[i] == (L)(S)(C * ai) && plp[i] == (L)(S)(ai + bi) && mip[i] == (L)(S)(ai - bi) && ngp[i] == -pa[i] && psp[i] == pa[i],
+          nm << " scalar*A / A+B / A-B / -A / +A, p[" << i << "]");
+    }
+  }
+  // ---- == / != ------------------------------------------------------------------------------------------------------------
+  {
+    PBT_ASSERT_MSG(A == A && !(A != A), nm << " A==A");
+    bool same = exactEq(a, b) && exactEq(pa, pb);
+    PBT_ASSERT_MSG((A == B) == same && (A != B) == !same, nm << " A==B / A!=B");
+    RM<N> pm = a;
+    RV<N> pp = pa;
+    int e = ((c.e % (N * N + N)) + N * N + N) % (N * N + N);
+    L &el = e < N * N ? pm.m[e / N][e % N] : pp[e - N * N];
+    el += (el == 0 ? 1 : el);
+    AS P(mkLS<LS>(pm), mkV<V>(pp));
+    PBT_ASSERT_MSG(!(A == P) && (A != P), nm << " ==/!= ignore element " << e);
+  }
+  aff_xfm<TR>(A, B, a, b, pa, pb, ia, X, x);
+}
+
+// ---- scale / translate / rotate builders -----------------------------------------------------------------------------------------
+struct Bld3Case
+{
+  Rot r;
+  int k = 0;
+  A3 p{{0, 0, 0}}, s{{1, 1, 1}};
+  double lam = 0;
+  A4 q{{1, 0, 0, 0}};
+  auto tie()
+  {
+    return std::tie(r, k, p, s, lam, q);
+  }
+};
+static rc::Gen<Bld3Case> genBld3Case()
+{
+  return rc::gen::map(rc::gen::tuple(genRot(), rc::gen::weightedElement<int>({{6, 0}, {1, -2}, {1, 2}}), genVec<3>(VMAX), genVec<3>(VMAX), sreal(VMAX), genQuat4()),
+      [](const std::tuple<Rot, int, A3, A3, double, A4> &t) {
+        Bld3Case c;
+        c.r = std::get<0>(t);
+        c.k = std::get<1>(t);
+        c.p = std::get<2>(t);
+        c.s = std::get<3>(t);
+        c.lam = std::get<4>(t);
+        c.q = std::get<5>(t);
+        return c;
+      });
+}
+template <class TR>
+static void aff3_builders(const Bld3Case &c, pbt::Ctx &ctx)
+{
+  using LS = typename TR::LS;
+  using V = typename LS::Vector;
+  using S = typename V::scalar_t;
+  using AS = AffineSpaceT<LS>;
+  const std::string nm = TR::name();
+  const L eps = epsOf<S>(), ex = epsXfm<S>(), fl = rsqrtFloor<S>();
+  int k = c.k < -3 ? -3 : c.k > 3 ? 3 : c.k;
+  const V U = mkV<V>(vscale(unitAxis(c.r.ax), ldexpl(1, k)));
+  const S th = (S)angOf(c.r.ang);
+  RV<3> u = toRef(U);
+  u = vscale(u, 1 / vlen(u));
+  const V P = mkV<V>(vecOf(c.p, VMAX)), Sc = mkV<V>(vecOf(c.s, VMAX));
+  const RV<3> p = toRef(P), sc = toRef(Sc);
+  ctx.nt(!axisAligned(u) && fabsl((L)th) > 1e-9L && vlen(p) > 0);
+  ctx.label(axisAligned(u) ? "axis: coordinate axis" : "axis: generic");
+  ctx.label(vlen(p) == 0 ? "p: zero" : "p: non-zero");
+  RV<3> z3{{0, 0, 0}};
+  // scale(s): l = diag(s), p = 0, exactly
+  {
+    AS a = AS::scale(Sc);
+    RM<3> w = rzero<3>();
+    for (int i = 0; i < 3; ++i)
+      w.m[i][i] = sc[i];
+    PBT_ASSERT_MSG(exactEq(toRef(a.l), w) && exactEq(toRef(a.p), z3), nm << " scale(): " << show(toRef(a.l)) << " p " << show(toRef(a.p)));
+  }
+  // translate(p): l = I, origin p, exactly
+  {
+    AS a = AS::translate(P);
+    PBT_ASSERT_MSG(exactEq(toRef(a.l), rident<3>()) && exactEq(toRef(a.p), p), nm << " translate(): " << show(toRef(a.l)) << " p " << show(toRef(a.p)));
+  }
+  const RM<3> R = rodrigues(u, (L)th);
+  // rotate(u, r): linear part = the rotation (tolerance as LinearSpace3::rotate), p = 0 exactly
+  {
+    AS a = AS::rotate(U, th);
+    CHKMU(ST(nm + ".rotate(u,r).l"), toRef(a.l), R, fl);
+    PBT_ASSERT_MSG(exactEq(toRef(a.p), z3), nm << " rotate(u,r): p must be 0");
+  }
+  // rotate(q): l = matrix of the unit quaternion; entries are 4-term sums of products of |q_i| <= 1: <= 2 eps, K = 16
+  {
+    const QuaternionT<S> Q = mkQ<S>(unitQuat(c.q));
+    AS a = AS::rotate(Q);
+    CHKMU(ST(nm + ".rotate(q).l"), toRef(a.l), qmat(toRef(Q)), 16 * eps);
+    PBT_ASSERT_MSG(exactEq(toRef(a.p), z3), nm << " rotate(q): p must be 0");
+  }
+  // rotate(p, u, r) = translate(p) rotate(u,r) translate(-p): linear part = rotate(u,r); origin p - R p; fixes p and the axis p + t u
+  {
+    AS a = AS::rotate(P, U, th);
+    const RM<3> l = toRef(a.l);
+    const RV<3> o = toRef(a.p);
+    CHKMU(ST(nm + ".rotate(p,u,r).l"), l, R, fl);
+    RM<3> aR = rabs(R);
+    RV<3> ap = rabs(p), Rp = rmulv(R, p);
+    // origin = p - R_impl p: |dR||p| (dR <= fl entrywise) + 2 eps (|R||p| + |p|)
+    RV<3> tolO;
+    for (int i = 0; i < 3; ++i)
+      tolO[i] = fl * (ap[0] + ap[1] + ap[2]) + 8 * eps * (rmulv(aR, ap)[i] + ap[i]) + 1e-300L;
+    CHKV(ST(nm + ".rotate(p,u,r).p"), o, vadd(p, vscale(Rp, -1)), tolO, 1);
+    // p is a fixed point whatever the error of R:  l p + (p - l p):  <= 3.5 eps |l||p| + 2.5 eps |origin|, K = 16  (eps_f via xfmPoint)
+    RV<3> tolF;
+    for (int i = 0; i < 3; ++i)
+      tolF[i] = 16 * ex * (rmulv(aR, ap)[i] + fabsl(o[i]) + ap[i]) + 1e-300L;
+    CHKV(ST(nm + ".rotate(p,u,r) fixes p"), toRef(xfmPoint(a, P)), p, tolF, 1);
+    // points of the axis are fixed up to |R u - u| <= sqrt3 fl per unit of t
+    L t = fin(c.lam, -VMAX, VMAX);
+    const V Y = mkV<V>(vadd(p, vscale(u, t)));
+    RV<3> y = toRef(Y), ay = rabs(y), tolA;
+    for (int i = 0; i < 3; ++i)
+      tolA[i] = 2 * fl * fabsl(t) + 16 * ex * (rmulv(aR, ay)[i] + fabsl(o[i]) + ay[i]) + fl * 4 * eps * (ap[0] + ap[1] + ap[2]) + 1e-300L;
+    CHKV(ST(nm + ".rotate(p,u,r) fixes the axis through p"), toRef(xfmPoint(a, Y)), y, tolA, 1);
+  }
+}
+struct Bld2Case
+{
+  double ang = 0;
+  A2 p{{0, 0}}, s{{1, 1}};
+  auto tie()
+  {
+    return std::tie(ang, p, s);
+  }
+};
+static void aff2_builders(const Bld2Case &c, pbt::Ctx &ctx)
+{
+  using AS = AffineSpace2f;
+  const std::string nm = "affine2f";
+  const L eps = epsOf<float>();
+  const float th = (float)angOf(c.ang);
+  const vec2f P = mkV<vec2f>(vecOf(c.p, VMAX)), Sc = mkV<vec2f>(vecOf(c.s, VMAX));
+  const RV<2> p = toRef(P), sc = toRef(Sc), z2{{0, 0}};
+  L two = fmodl(fabsl((L)th), PI_D / 2);
+  bool aligned = two < 1e-6L || two > PI_D / 2 - 1e-6L;
+  ctx.nt(!aligned && vlen(p) > 0);
+  ctx.label(aligned ? "angle: multiple of pi/2" : "angle: generic");
+  {
+    AS a = AS::scale(Sc);
+    RM<2> w = rzero<2>();
+    w.m[0][0] = sc[0];
+    w.m[1][1] = sc[1];
+    PBT_ASSERT_MSG(exactEq(toRef(a.l), w) && exactEq(toRef(a.p), z2), nm << " scale()");
+    AS t = AS::translate(P);
+    PBT_ASSERT_MSG(exactEq(toRef(t.l), rident<2>()) && exactEq(toRef(t.p), p), nm << " translate()");
+  }
+  const RM<2> R = rot2((L)th);
+  {
+    AS a = AS::rotate(th);
+    CHKMU(ST(nm + ".rotate(r).l"), toRef(a.l), R, 4 * eps);
+    PBT_ASSERT_MSG(exactEq(toRef(a.p), z2), nm << " rotate(r): p must be 0");
+  }
+  {
+    // rotate(p, r): rotation about the point p
+    AS a = AS::rotate(P, th);
+    const RM<2> l = toRef(a.l);
+    const RV<2> o = toRef(a.p);
+    CHKMU(ST(nm + ".rotate(p,r).l"), l, R, 4 * eps);
+    RM<2> aR = rabs(R);
+    RV<2> ap = rabs(p), Rp = rmulv(R, p), tolO, tolF;
+    for (int i = 0; i < 2; ++i) {
+      tolO[i] = 4 * eps * (ap[0] + ap[1]) + 8 * eps * (rmulv(aR, ap)[i] + ap[i]) + 1e-300L;
+      tolF[i] = 16 * eps * (rmulv(aR, ap)[i] + fabsl(o[i]) + ap[i]) + 1e-300L;
+    }
+    CHKV(ST(nm + ".rotate(p,r).p"), o, vadd(p, vscale(Rp, -1)), tolO, 1);
+    CHKV(ST(nm + ".rotate(p,r) fixes p"), toRef(a.l * P + a.p), p, tolF, 1);
+  }
+}
+
+// ---- lookat --------------------------------------------------------------------------------------------------------------------------
+struct LookCase
+{
+  A3 eye{{0, 0, 0}}, dir{{0, 0, 1}}, upd{{0, 1, 0}};
+  double logdist = 0;  // |point-eye| = 2^logdist in [1/8,16]
+  int mode = 0;        // 0: up = upd; 1: up _|_ view direction; 2: up close to the view direction (sin in [0.1,0.3])
+  double mag = 0;
+  int upk = 0;         // |up| = 2^upk
+  auto tie()
+  {
+    return std::tie(eye, dir, upd, logdist, mode, mag, upk);
+  }
+};
+static rc::Gen<LookCase> genLookCase()
+{
+  return rc::gen::map(rc::gen::tuple(genVec<3>(VMAX), genAxis(), genAxis(), ureal(-3, 4), rc::gen::weightedElement<int>({{6, 0}, {2, 1}, {2, 2}}), ureal(0, 1), pbt::range<int>(-2, 2)),
+      [](const std::tuple<A3, A3, A3, double, int, double, int> &t) {
+        LookCase c;
+        c.eye = std::get<0>(t);
+        c.dir = std::get<1>(t);
+        c.upd = std::get<2>(t);
+        c.logdist = std::get<3>(t);
+        c.mode = std::get<4>(t);
+        c.mag = std::get<5>(t);
+        c.upk = std::get<6>(t);
+        return c;
+      });
+}
+template <class TR>
+static void aff3_lookat(const LookCase &c, pbt::Ctx &ctx)
+{
+  using LS = typename TR::LS;
+  using V = typename LS::Vector;
+  using S = typename V::scalar_t;
+  using AS = AffineSpaceT<LS>;
+  const std::string nm = TR::name();
+  const L eps = epsOf<S>(), fl = rsqrtFloor<S>();
+  // construction (never filtered): point = eye + 2^logdist * dir;  up has sin(up, dir) >= 0.1
+  RV<3> zd = unitAxis(c.dir), ud = unitAxis(c.upd);
+  RV<3> perp = vadd(ud, vscale(zd, -vdot(ud, zd)));
+  if (vlen(perp) < 0.1L) {  // upd (nearly) parallel to dir: take any perpendicular
+    RV<3> e{{0, 0, 0}};
+    e[fabsl(zd[0]) < 0.6L ? 0 : 1] = 1;
+    perp = vcross(zd, e);
+  }
+  perp = vscale(perp, 1 / vlen(perp));
+  int mode = ((c.mode % 3) + 3) % 3;
+  RV<3> upx;
+  if (mode == 0 && vlen(vcross(zd, ud)) >= 0.1L)
+    upx = ud;
+  else if (mode == 1 || mode == 0)
+    upx = perp;
+  else {
+    L sn = 0.1L + 0.2L * fin(c.mag, 0, 1), cs = sqrtl(1 - sn * sn) * (c.upd[0] < 0 ? -1 : 1);
+    upx = vadd(vscale(zd, cs), vscale(perp, sn));
+  }
+  int upk = c.upk < -2 ? -2 : c.upk > 2 ? 2 : c.upk;
+  const V Eye = mkV<V>(vecOf(c.eye, VMAX));
+  const RV<3> eye = toRef(Eye);
+  const V Point = mkV<V>(vadd(eye, vscale(zd, exp2l((L)fin(c.logdist, -3, 4)))));
+  const V Up = mkV<V>(vscale(upx, ldexpl(1, upk)));
+  const RV<3> point = toRef(Point), up = toRef(Up);
+  // definition (AffineSpace.h): Z = normalize(point-eye), U = normalize(cross(Z,up)), V = cross(U,Z), origin = eye
+  RV<3> d = vadd(point, vscale(eye, -1));
+  RV<3> Z = vscale(d, 1 / vlen(d));
+  RV<3> cr = vcross(Z, up);
+  L sn = vlen(cr) / vlen(up);
+  RV<3> Uw = vscale(cr, 1 / vlen(cr));
+  RV<3> Vw = vcross(Uw, Z);
+  ctx.nt(!axisAligned(Z) && vlen(eye) > 0);
+  ctx.label(sn > 0.9L ? "up ~ perpendicular to view" : sn < 0.31L ? "up close to view direction (sin<0.31)" : "up oblique");
+  ctx.label(axisAligned(Z) ? "view: coordinate axis" : "view: generic");
+  PBT_ASSERT_MSG(sn > 0.09L && vlen(d) > 0.1L, "generator: lookat input out of the constructed domain");
+  const AS a = AS::lookat(Eye, Point, Up);
+  const RM<3> l = toRef(a.l);
+  RV<3> gU{{l.m[0][0], l.m[1][0], l.m[2][0]}}, gV{{l.m[0][1], l.m[1][1], l.m[2][1]}}, gZ{{l.m[0][2], l.m[1][2], l.m[2][2]}};
+  // Z: fl(point-eye) has componentwise relative error eps/2 (the operands are exact), times the rsqrt floor.
+  // U: the rsqrt error of Z is a common factor and drops out of the direction of Z x up; what remains is 2 eps/2 on Z's
+  //    entries + 2 eps/2 (|ab|+|cd|) in the cross product, relative to |Z x up| = |up| sin: <= 3 eps/sin; normalize: floor.
+  // V = U x Z: the two scale errors add (2 floors), direction as U.      cond = 1/sin <= 10;  K ~ 5
+  const L tolZ = fl, tolU = fl + 16 * eps / sn, tolV = 2 * fl + 16 * eps / sn;
+  PBT_ASSERT_MSG(exactEq(toRef(a.p), eye), nm << " lookat: origin must be eye");
+  CHKVU(ST(nm + ".lookat:Z=normalize(point-eye)"), gZ, Z, tolZ);
+  CHKVU(ST(nm + ".lookat:U=normalize(Z x up)"), gU, Uw, tolU);
+  CHKVU(ST(nm + ".lookat:V=U x Z"), gV, Vw, tolV);
+  CHKMU(ST(nm + ".lookat:orthonormal"), rmul(rtrans(l), l), rident<3>(), 4 * tolV);
+  // orientation that the definition gives: U x V = -Z, i.e. det(U,V,Z) = -1 (U is the viewer's right-hand side in a
+  // right-handed world: (right, up, forward) is a left-handed triple)
+  CHK(ST(nm + ".lookat:det(U,V,Z)=-1"), rdet(l), -1, 6 * tolV);
+  PBT_ASSERT_MSG(vdot(gV, up) > 0, nm << " lookat: V must point to the side of up");
+}
+
+static void register_part2()
+{
+  reg<AffCase<2>>("affine2f_algebra", 40000, genAffCase<2>(), aff_algebra<A2f>);
+  reg<AffCase<3>>("affine3f_algebra", 40000, genAffCase<3>(), aff_algebra<A3f>);
+  reg<AffCase<3>>("affine3fa_algebra", 40000, genAffCase<3>(), aff_algebra<A3fa>);
+  reg<AffCase<3>>("affine3d_algebra", 40000, genAffCase<3>(), aff_algebra<A3d>);
+  reg<Bld3Case>("affine3f_builders", 30000, genBld3Case(), aff3_builders<A3f>);
+  reg<Bld3Case>("affine3fa_builders", 30000, genBld3Case(), aff3_builders<A3fa>);
+  reg<Bld3Case>("affine3d_builders", 30000, genBld3Case(), aff3_builders<A3d>);
+  auto g2 = rc::gen::map(rc::gen::tuple(genAngle(), genVec<2>(VMAX), genVec<2>(VMAX)), [](const std::tuple<double, A2, A2> &t) {
+    Bld2Case c;
+    c.ang = std::get<0>(t);
+    c.p = std::get<1>(t);
+    c.s = std::get<2>(t);
+    return c;
+  });
+  reg<Bld2Case>("affine2f_builders", 30000, g2, aff2_builders);
+  reg<LookCase>("affine3f_lookat", 30000, genLookCase(), aff3_lookat<A3f>);
+  reg<LookCase>("affine3fa_lookat", 30000, genLookCase(), aff3_lookat<A3fa>);
+  reg<LookCase>("affine3d_lookat", 30000, genLookCase(), aff3_lookat<A3d>);
+}
+#endif  // PART 2
+
 static void register_properties()
 {
 #if C06_PART == 0 || C06_PART == 1
   register_part1();
+#endif
+#if C06_PART == 0 || C06_PART == 2
+  register_part2();
+#endif
+#if C06_PART == 0 || C06_PART == 3
+  register_part3();
 #endif
 }
 
